@@ -259,7 +259,15 @@ func visitInstr(fr *frame, instr ssa.Instruction) continuation {
 
 	case *ssa.Store:
 		addr := fr.deref(fr.get(instr.Addr))
-		m.raceAccess(fr, addr, true)
+		// "return x" of a named result x is built as the self-assignment
+		// t = *x; *x = t, which the compiler does not emit: not a write
+		selfStore := false
+		if u, ok := instr.Val.(*ssa.UnOp); ok && u.Op == token.MUL && u.X == instr.Addr {
+			selfStore = true
+		}
+		if !selfStore {
+			m.raceAccess(fr, addr, true)
+		}
 		m.store(mustDeref(instr.Addr.Type()), addr, fr.get(instr.Val))
 
 	case *ssa.If:
